@@ -13,6 +13,7 @@ mod history;
 mod json;
 mod ledger;
 mod monitors;
+mod nn;
 mod program;
 mod refmodel;
 mod rng;
